@@ -1,6 +1,6 @@
 """C16 -- seeded calls are reproducible and independent of the global RNG state.
 
-1. TLC checks the clauses of C16 on RngStreams.tla for every interleaving of <= 6 (thorough: 7)
+1. TLC checks the clauses of C16 on RngStreams.tla for every interleaving of <= 6 (thorough: 7, and 6 with seeded deterministic routines)
    operations (2 entry classes, 2 seeds, twin generators), plus non-vacuity runs: the two as-found
    variants ("ignore_seed" = F-16a, "leak" = F-16b) must violate the properties, and the witness
    config must find histories in which the implications have a true antecedent.
@@ -176,9 +176,10 @@ def run(chk, opts):
     thorough = chk.tier == "thorough"
     # 1. design: exhaustive model checking (runs in the background while the histories are replayed)
     from concurrent.futures import ThreadPoolExecutor
-    pool = ThreadPoolExecutor(max_workers=4)
+    pool = ThreadPoolExecutor(max_workers=5)
     cfg = "RngStreamsMC_thorough.cfg" if thorough else "RngStreamsMC_quick.cfg"
     f_design = pool.submit(tlc.run, "RngStreamsMC", cfg, workers=NCPU if thorough else 8, coverage=not thorough, timeout=3000)
+    f_design2 = pool.submit(tlc.run, "RngStreamsMC", "RngStreamsMC_thorough_all.cfg", workers=NCPU, timeout=3000) if thorough else None
     f_wit = {v: pool.submit(tlc.run, "RngStreamsMC", "RngStreamsMC_%s.cfg" % v, workers=2, timeout=900, extra=["-continue"])
              for v in ("asfound", "leak", "witness")}
     # 2. spec -> code: transition cover of the labelled state graph + random histories
@@ -208,7 +209,7 @@ def run(chk, opts):
     try:
         r = f_design.result()
     except tlc.TLCError as ex:
-        chk.machinery.append(str(ex)[-3000:])
+        chk.machinery.append(str(ex)[:300] + " ... " + str(ex)[-2500:])
         return
     chk.checker_cmds.append("tlc -config %s RngStreamsMC" % cfg)
     chk.states += r.distinct + g.distinct
@@ -216,6 +217,14 @@ def run(chk, opts):
     chk.notes["design_run"] = r.summary()
     for a_, (d_, t_) in r.coverage.items():
         chk.actions["RngStreamsMC." + a_] = (d_, t_)
+    if f_design2 is not None:       # thorough: also a deterministic routine that accepts (and must ignore) a seed
+        r2 = f_design2.result()
+        chk.checker_cmds.append("tlc -config RngStreamsMC_thorough_all.cfg RngStreamsMC")
+        chk.states += r2.distinct
+        chk.transitions += r2.generated
+        chk.notes["design_run_all_seedable"] = r2.summary()
+        if not r2.ok:
+            chk.machinery.append("design spec RngStreamsMC/RngStreamsMC_thorough_all.cfg does not satisfy its own properties: %s" % (r2.violated or r2.summary()))
     if not r.ok:
         chk.machinery.append("design spec RngStreamsMC/%s does not satisfy its own properties: %s\n%s" % (cfg, r.violated or r.summary(), r.out[-3000:]))
     if not thorough:
